@@ -148,9 +148,8 @@ theorem nbP_facts (pb : Problem) {y x : Nat} :
   obtain ⟨p, hp, rfl⟩ := he
   obtain ⟨h1, h2, h3, h4⟩ := C12Conv.mem_neighbours hp
   refine ⟨rfl, ?_⟩
-  simp only [Expr.varsBelow, decide_eq_true_eq, pbase]
   have := C11Grid.cell_lt (h := pb.height) (w := pb.width) (y := p.1.toNat) (x := p.2.toNat) (by omega) (by omega)
-  omega
+  exact (good_pf pb this).2
 
 theorem good_degE (pb : Problem) {y x : Nat} (k : Int) : Good (4 * (pb.height * pb.width)) (degE pb y x k) :=
   ⟨C11FragWT.wtB_cmp_countTrueE .eq rfl _ k (fun e he => (nbP_facts pb e he).1),
@@ -302,8 +301,12 @@ theorem pathCell_sem (hp : ∀ y, y < pb.height → ∀ x, x < pb.width → pt y
   have c0 := eval_pv σ pt hp hy hx
   have d1 := eval_degE σ pt hp y x 1
   have d2 := eval_degE σ pt hp y x 2
-  simp only [pathCellE, List.mem_append, or_imp, forall_and]
-  rw [← and_assoc]
+  have hL : (∀ c ∈ pathCellE pb y x, eval σ c = some (.b true)) ↔
+      (∀ c ∈ degCsE pb y x, eval σ c = some (.b true)) ∧
+        (∀ c ∈ (if markAt pb y x = 1 then [pv pb y x] else if markAt pb y x = 2 then [.node .not [pv pb y x]] else []),
+          eval σ c = some (.b true)) := by
+    simp only [pathCellE, List.mem_append, or_imp, forall_and]
+  rw [hL, ← and_assoc]
   apply and_congr
   · unfold degCsE
     by_cases he : IsEnd pb y x
